@@ -84,6 +84,9 @@ Mq == Term("mvax", 42, ListS(<<m32, m222>>), <<1, 0>>, <<>>)    \* undoes Mp on 
 Ma == Term("mvax", 43, m234, <<0, 1, 1, 2>>, <<>>)              \* (0,1) -> (1,2): (2,3,4) -> (4,2,3)
 Mb == Term("mvax", 44, LeafF(<<4, 2, 3>>), <<2, 1, 0, 1>>, <<>>)   \* (2,1) -> (0,1): same axis sets as the inverse of Ma, pairing swapped
 
+\* the TOAST observation matrix operator (square, sparse, not symmetric)
+Ob == Term("obs", 45, v3, <<3, 3, 2, 0, 1, 0, 3, 0, -1, 4, 5>>, <<>>)
+
 Inv(t) == InvOf(t)
 
 \* named atoms: name -> term.  The names are only labels for humans and evidence.
@@ -100,7 +103,7 @@ AtomTable ==
     I2v |-> Id(v2), I3v |-> Id(v3), Iqu |-> Id(QU2), Im |-> Id(m23),
     H2 |-> Hom(2, 1, v2), Hh |-> Hom(-1, 2, v2), H3 |-> Hom(3, 1, v3), Hq |-> Hom(-3, 1, QU2), Hm |-> Hom(1, 2, m23),
     H6 |-> Hom(2, 1, v6), D0 |-> D0, D0I |-> DInvOf(D0), Dl |-> Dl, DlI |-> DInvOf(Dl), Prl |-> Prl, PrlT |-> TOf(Prl), BDl |-> BDl, BDi |-> BDi, BRl |-> BRl, BCl |-> BCl,
-    Il |-> Id(L22), Hl |-> Hom(-2, 1, L22), Mp |-> Mp, Mq |-> Mq, MpT |-> Transpose(Mp), Ma |-> Ma, Mb |-> Mb, MaT |-> Transpose(Ma), Mc |-> Mc, McT |-> Transpose(Mc), Mn |-> Mn, Dq |-> Dq, DqI |-> DInvOf(Dq), Dh |-> Dh, D3I |-> DInvOf(D3), AB |-> AddT(<<A, B>>) ]
+    Il |-> Id(L22), Hl |-> Hom(-2, 1, L22), Ob |-> Ob, ObT |-> TOf(Ob), Mp |-> Mp, Mq |-> Mq, MpT |-> Transpose(Mp), Ma |-> Ma, Mb |-> Mb, MaT |-> Transpose(Ma), Mc |-> Mc, McT |-> Transpose(Mc), Mn |-> Mn, Dq |-> Dq, DqI |-> DInvOf(Dq), Dh |-> Dh, D3I |-> DInvOf(D3), AB |-> AddT(<<A, B>>) ]
 
 AllAtomNames == DOMAIN AtomTable
 =============================================================================
